@@ -4,6 +4,7 @@ mod trusted_join {
 use vstd::prelude::*;
 verus! {
 
+// TRUSTED[join-trait-declared]: declares std::slice::Join (name and associated Output type only) so that `join` can be given a specification.
 #[verifier::external_trait_specification]
 pub trait ExJoin<Separator> {
     type ExternalTraitSpecificationFor: std::slice::Join<Separator>;
